@@ -5,11 +5,11 @@ import kcommon as kc
 
 PID = "C07"
 MODEL_TARGETS = ["Proofs/Eval.vo", "Amount/F64.vo", "Amount/Dec.vo", "Gen/Catalogue.vo", "Spec/Units.vo"]
-PROOF_TARGETS = ["Props/C07.vo", "Pinned/C07.vo"]
-PROPS = "Props/C07.v"
+PROOF_TARGETS = ["Props/C07.vo", "Pinned/C07.vo", "Props/C07pi.vo", "Pinned/C07pi.vo"]
+PROPS = ["Props/C07.v", "Props/C07pi.v"]
 COQCHK = ["QV.Props.C07"]
 TRUSTED_BASE = [
-    "Coq 8.16.1 kernel (coqc; vm_compute over the finite tables); coqchk in the thorough tier",
+    "Coq 8.16.1 kernel (coqc; vm_compute over the finite tables); coqchk in the thorough tier on Props/C07.v - the parsec statements (Props/C07pi.v) are checked by coqc only: coqchk re-evaluates Coq-Interval's reflexive proof without the VM and needs about an hour",
     "Spec/Units.v (hand, independent of the repository): name, symbol, SI prefix and exact definition of each of the 112 + 27 units, chained to the reference unit",
     "translator rs2j+j2v: the attribute tables as raw declarations and the generator's actual arms of name/symbol/si_prefix/scale, regenerated on every run",
     "binary64 literal conversion = correctly rounded (Flocq's division pipeline, Amount/F64.v), Dec! = Amount/DecModel.v; both validated against the compiled crate on every run (bit patterns / coefficients of every scale)",
